@@ -5,8 +5,11 @@
 // phase loop: two hooked Conns with matching dummy keys (no handshake): the sender's real
 //             Write/CloseWrite produce the wire; the wire is re-chunked and fed to the
 //             receiver's real Read with cycling buffer sizes.
-// phase e2e : a real handshake over an in-memory pipe for each of the four suites, then the
-//             same experiment through the established connections (re-segmenting transport).
+// phase e2e : a real connection over an in-memory pipe for each of the four suites (full
+//             handshake or resumed session, client or server writing), then the same experiment
+//             through it (re-segmenting transport); with gate=1 the writer's last handshake
+//             flight is delivered together with its application records, so that the reader's
+//             handshake ends on transport reads that also carry application data.
 package main
 
 import (
@@ -15,6 +18,7 @@ import (
 	"net"
 	"strconv"
 	"strings"
+	"sync"
 	"time"
 
 	"gitee.com/Trisia/gotlcp/tlcp"
@@ -253,55 +257,145 @@ var suites = map[string]uint16{
 	"ecdhe-gcm": tlcp.ECDHE_SM4_GCM_SM3, "ecdhe-cbc": tlcp.ECDHE_SM4_CBC_SM3,
 }
 
+// hsTimeout bounds every wait of an e2e case (a handshake or a read that can no longer make
+// progress is an observation, not a hang of the driver).
+const hsTimeout = 20 * time.Second
+
+// execE2E runs one real connection and then the stream experiment through it.
+//
+//	res=0|1   full handshake / resumed session (a first connection fills both session caches)
+//	dir=c2s|s2c  who writes the application data (the other side reads)
+//	gate=0|1  0: the writer starts after both handshakes have returned.
+//	          1: the writer's last handshake flight (ChangeCipherSpec + Finished) is kept back
+//	             by the transport and delivered together with the application records (and the
+//	             close-notify) that follow it, as one byte stream cut by `seg`: the reader's
+//	             handshake and its Reads work on the same transport reads. Only possible when
+//	             the writer sends the last flight: the server of a full handshake, the client
+//	             of a resumed one.
 func execE2E(desc string) string {
 	suite, _ := hx.KV(desc, "suite")
 	sizesS, _ := hx.KV(desc, "w")
 	segS, _ := hx.KV(desc, "seg")
 	bufS, _ := hx.KV(desc, "bufs")
+	dir, _ := hx.KV(desc, "dir")
 	sizes := parseInts(sizesS)
 	seed := hx.KVInt(desc, "seed")
+	resumed := hx.KVInt(desc, "res") == 1
+	gated := hx.KVInt(desc, "gate") == 1
+	s2c := dir == "s2c"
 	std := pki.Std()
 	ccfg, scfg := pair.TClient(), pair.TServer()
 	ccfg.CipherSuites = []uint16{suites[suite]}
 	ccfg.DynamicRecordSizingDisabled = hx.KVInt(desc, "dyn") == 0
+	scfg.DynamicRecordSizingDisabled = ccfg.DynamicRecordSizingDisabled
 	ccfg.Certificates = []tlcp.Certificate{pair.TCert(std.CliSig), pair.TCert(std.CliEnc)}
 	scfg.ClientAuth = tlcp.RequireAndVerifyClientCert
 	scfg.ClientCAs = std.Root.Pool
-	c, s, ce, se, res := pair.TLCP(ccfg, scfg, nil)
-	if !res.OK() {
-		return "handshake=" + strings.ReplaceAll(res.String(), " ", "_")
+	if resumed {
+		ccfg.SessionCache = tlcp.NewLRUSessionCache(4)
+		scfg.SessionCache = tlcp.NewLRUSessionCache(4)
+		c0, s0, ce0, se0, r0 := pair.TLCP(ccfg, scfg, nil)
+		if !r0.OK() {
+			return "handshake=first:" + strings.ReplaceAll(r0.String(), " ", "_")
+		}
+		c0.Close()
+		s0.Close()
+		ce0.Close()
+		se0.Close()
 	}
+	ce, se := pair.StreamPipe()
 	defer ce.Close()
 	defer se.Close()
-	bs0, ps0 := tlcp.VerifTxCounters(c)
-	before := len(ce.Sent)
+	c, s := tlcp.Client(ce, ccfg), tlcp.Server(se, scfg)
+	w, r, we, re := c, s, ce, se
+	if s2c {
+		w, r, we, re = s, c, se, ce
+	}
+	// the writer's transport: from its ChangeCipherSpec on, everything is kept back
+	var held []byte
+	holding := false
+	if gated {
+		we.OnWrite = func(d []byte) [][]byte {
+			if holding || (len(d) > 0 && d[0] == 20) {
+				holding = true
+				held = append(held, d...)
+				return nil
+			}
+			return [][]byte{d}
+		}
+	}
+	// the reader's transport: once armed, one Read returns the next chunk of `seg`
+	seg := parseInts(segS)
+	if len(seg) == 0 {
+		seg = []int{512}
+	}
+	var mu sync.Mutex
+	armed, i := false, 0
+	re.MaxRead = func(avail int) int {
+		mu.Lock()
+		defer mu.Unlock()
+		if !armed {
+			return avail
+		}
+		v := seg[i%len(seg)]
+		i++
+		return v
+	}
+	watchdog := time.AfterFunc(hsTimeout, func() { ce.Close(); se.Close() })
+	defer watchdog.Stop()
+	rdone := make(chan error, 1)
+	go func() { rdone <- r.Handshake() }()
+	werr := w.Handshake()
+	var rerr error
+	if !gated {
+		rerr = <-rdone
+	}
+	if werr != nil || rerr != nil {
+		return "handshake=" + strings.ReplaceAll(pair.Result{CErr: werr, SErr: rerr}.String(), " ", "_")
+	}
+	if w.ConnectionState().DidResume != resumed {
+		return fmt.Sprintf("handshake=resumed:%v", w.ConnectionState().DidResume)
+	}
+	pre := recordLens(held)
+	bs0, ps0 := tlcp.VerifTxCounters(w)
+	before := len(we.Sent)
 	var ns []int
 	total := 0
 	for j, n := range sizes {
-		m, err := c.Write(pattern(seed, j, n))
+		m, err := w.Write(pattern(seed, j, n))
 		if err != nil {
 			m = -1 - m
 		}
 		ns = append(ns, m)
 		total += n
 	}
-	if hx.KVInt(desc, "close") == 1 {
-		c.Close()
-	} else {
-		ce.CloseWriteRaw()
+	closing := hx.KVInt(desc, "close") == 1
+	if closing && gated {
+		// the close-notify joins the kept-back bytes; the transport ends after they are delivered
+		w.CloseWrite()
+	} else if closing {
+		w.Close()
 	}
 	var recs []int
-	for _, w := range ce.Sent[before:] {
-		recs = append(recs, recordLens(w)...)
+	for _, wr := range we.Sent[before:] {
+		recs = append(recs, recordLens(wr)...)
 	}
-	seg := parseInts(segS)
-	if len(seg) == 0 {
-		seg = []int{512}
+	mu.Lock()
+	armed = true
+	mu.Unlock()
+	if gated {
+		we.Inject(held)
 	}
-	i := 0
-	se.MaxRead = func(avail int) int { v := seg[i%len(seg)]; i++; return v }
-	rd, data := readLoop(s, parseInts(bufS), total)
-	return fmt.Sprintf("bs0=%d ps0=%d n=%s recs=%s pl=? reads=%s data=%s", bs0, ps0, showInts(ns), showInts(recs), rd, hx.Hex(data))
+	if !closing || gated {
+		we.CloseWriteRaw()
+	}
+	hs := "-"
+	if gated {
+		// the reader's handshake ends on the transport reads that also carry application data
+		hs = endClass(<-rdone)
+	}
+	rd, data := readLoop(r, parseInts(bufS), total)
+	return fmt.Sprintf("bs0=%d ps0=%d pre=%s hs=%s n=%s recs=%s pl=? reads=%s data=%s", bs0, ps0, showInts(pre), hs, showInts(ns), showInts(recs), rd, hx.Hex(data))
 }
 
 func execute(desc string) string {
@@ -483,44 +577,102 @@ func main() {
 
 	if o.Phase == "" || o.Phase == "e2e" {
 		names := []string{"ecc-gcm", "ecc-cbc", "ecdhe-gcm", "ecdhe-cbc"}
+		kindOf := func(su string) string { return su[strings.Index(su, "-")+1:] }
+		// the four ways a connection comes about and is used: full handshake or resumed session,
+		// client or server writing. gate=1 (the reader's handshake ends on transport reads that
+		// also carry application data) exists where the writer sends the last handshake flight.
+		type mode struct {
+			res  int
+			dir  string
+			gate int
+		}
+		plain := []mode{{0, "c2s", 0}, {0, "s2c", 0}, {1, "c2s", 0}, {1, "s2c", 0}}
+		gated := []mode{{1, "c2s", 1}, {0, "s2c", 1}}
+		e2e := func(su string, m mode, dyn int, w string, cl int, seg, bufs string) {
+			emit(fmt.Sprintf("ph=e2e suite=%s kind=%s dyn=%d res=%d dir=%s gate=%d w=%s seed=%d close=%d seg=%s bufs=%s",
+				su, kindOf(su), dyn, m.res, m.dir, m.gate, w, rng.Intn(256), cl, seg, bufs))
+		}
 		for _, su := range names {
-			kind := su[strings.Index(su, "-")+1:]
 			for _, dyn := range []int{1, 0} {
-				emit(fmt.Sprintf("ph=e2e suite=%s kind=%s dyn=%d w=0,1,1200,5000,16385,3 seed=%d close=1 seg=7,512,1 bufs=1000,1,16384", su, kind, dyn, rng.Intn(256)))
-				emit(fmt.Sprintf("ph=e2e suite=%s kind=%s dyn=%d w=700,2,49159 seed=%d close=1 seg=512 bufs=65536", su, kind, dyn, rng.Intn(256)))
-				emit(fmt.Sprintf("ph=e2e suite=%s kind=%s dyn=%d w=10,20,30 seed=%d close=0 seg=1 bufs=1,7", su, kind, dyn, rng.Intn(256)))
+				e2e(su, plain[0], dyn, "0,1,1200,5000,16385,3", 1, "7,512,1", "1000,1,16384")
+				e2e(su, plain[0], dyn, "700,2,49159", 1, "512", "65536")
+				e2e(su, plain[0], dyn, "10,20,30", 0, "1", "1,7")
+			}
+			// every kind of connection, writer starting after both handshakes returned
+			for _, m := range plain[1:] {
+				e2e(su, m, 1, "0,1,1200,5000,16385,3", 1, "7,512,1", "1000,1,16384")
+				e2e(su, m, 0, "10,20,30", 0, "1", "1,7")
+				e2e(su, m, 1, "700,2,20000", 1, "512", "65536")
+			}
+		}
+		// the handshake/application boundary: the writer's ChangeCipherSpec + Finished and its
+		// application records (+ close-notify) arrive as one byte stream. First under the fixed
+		// segmentations and buffer patterns of the loop phase, then with the first transport read
+		// ending at every position from the first byte of the flight to well inside the second
+		// application record (flight = 51 bytes with GCM, 91 with CBC; the rest in 512-byte reads),
+		// and with the cut repeated every c bytes.
+		for _, su := range names {
+			if !thorough && strings.HasPrefix(su, "ecdhe") {
+				continue
+			}
+			for _, m := range gated {
+				for i, seg := range segPats {
+					for _, cl := range []int{0, 1} {
+						e2e(su, m, 1, "0,1,300,0,1500,7", cl, seg, bufPats[(i+cl)%len(bufPats)])
+					}
+				}
+				for c := 1; c <= 140; c++ {
+					e2e(su, m, 1, "9,40,3", c%2, fmt.Sprintf("%d,512", c), hx.Pick(rng, bufPats))
+					if thorough || c%3 == 0 {
+						e2e(su, m, 1, "9,40,3", 1-c%2, strconv.Itoa(c), hx.Pick(rng, bufPats))
+					}
+				}
+				// bulk right behind the Finished, and the ramp
+				e2e(su, m, 1, strconv.Itoa(3*16384+7), 1, "512", "65536")
+				e2e(su, m, 0, "16385,1", 1, "509,3", "16384,1")
+				e2e(su, m, 1, rep(1, 12)+",40000", 1, "512", "65536")
+			}
+		}
+		for _, su := range names[2:] {
+			if thorough {
+				break
+			}
+			for _, m := range gated {
+				e2e(su, m, 1, "0,1,300,0,1500,7", 1, "512", "7")
+				e2e(su, m, 1, "0,1,300,0,1500,7", 0, "1", "16384")
+				e2e(su, m, 0, "9,40,3", 1, "60,1,512", "1")
 			}
 		}
 		// right after the handshake: bulk writes through the whole ramp, and k tiny writes followed
 		// by one that has more than a full record outstanding at every step
 		for _, su := range names {
-			kind := su[strings.Index(su, "-")+1:]
 			if !thorough && strings.HasPrefix(su, "ecdhe") {
 				continue
 			}
 			for _, bulk := range []int{124 * 1024, 200 * 1024} {
-				emit(fmt.Sprintf("ph=e2e suite=%s kind=%s dyn=1 w=%d seed=%d close=1 seg=512 bufs=65536", su, kind, bulk, rng.Intn(256)))
+				e2e(su, plain[0], 1, strconv.Itoa(bulk), 1, "512", "65536")
 			}
 			for k := 1; k <= 20; k++ {
 				if !thorough && (k < 11 || k > 16) {
 					continue
 				}
-				emit(fmt.Sprintf("ph=e2e suite=%s kind=%s dyn=1 w=%s,%d seed=%d close=1 seg=512 bufs=65536", su, kind, rep(1, k), 3*16384+7, rng.Intn(256)))
+				e2e(su, plain[0], 1, fmt.Sprintf("%s,%d", rep(1, k), 3*16384+7), 1, "512", "65536")
 			}
 		}
-		n := 12 * o.Scale
+		n := 24 * o.Scale
 		if thorough {
-			n = 300 * o.Scale
+			n = 600 * o.Scale
 		}
+		all := append(append([]mode{}, plain...), gated...)
 		for i := 0; i < n; i++ {
 			su := hx.Pick(rng, names)
-			kind := su[strings.Index(su, "-")+1:]
 			var ws []int
 			for j := rng.Intn(5); j >= 0; j-- {
 				ws = append(ws, rng.Intn(hx.Pick(rng, []int{10, 1300, 4000, 20000})))
 			}
-			emit(fmt.Sprintf("ph=e2e suite=%s kind=%s dyn=%d w=%s seed=%d close=%d seg=%d,%d bufs=%d,%d", su, kind, rng.Intn(2), showInts(ws),
-				rng.Intn(256), rng.Intn(2), 64+rng.Intn(448), 1+rng.Intn(512), 50+rng.Intn(3000), 50+rng.Intn(20000)))
+			e2e(su, hx.Pick(rng, all), rng.Intn(2), showInts(ws), rng.Intn(2),
+				fmt.Sprintf("%d,%d", hx.Pick(rng, []int{1 + rng.Intn(100), 64 + rng.Intn(448)}), 1+rng.Intn(512)),
+				fmt.Sprintf("%d,%d", 50+rng.Intn(3000), 50+rng.Intn(20000)))
 		}
 	}
 }
